@@ -94,11 +94,16 @@ class Ctx:
             self.broken.append(("lint", "forbidden construct in the Coq development", "\n".join(bad[:10])))
         else:
             self.discharged.append("lint:no Admitted/admit/Axiom/Parameter/Conjecture/unset checks in coq/theories")
-        cmd = ["timeout", str(timeout), "make", "-C", COQ, "-j", str(min(16, os.cpu_count() or 4)),
+        cmd = ["timeout", str(timeout), "make", "-C", COQ, "-j", str(workers()),
                os.path.join("theories", target)]
         self.checker_cmds.append(" ".join(cmd))
         with coq_lock():
             p = subprocess.run(cmd, capture_output=True, text=True)
+            for attempt in range(2):    # a coqc killed for want of memory says "Killed"/"Error 137", not "Error:"
+                if p.returncode == 0 or re.search(r"^Error|\bError:", p.stdout + p.stderr, re.M):
+                    break
+                time.sleep(10)
+                p = subprocess.run(cmd[:6] + ["2"] + cmd[7:], capture_output=True, text=True)
         out = p.stdout + p.stderr
         for n in names:
             self.obligations.append("coq:" + n)
@@ -495,6 +500,25 @@ def _run_chunk(args):
     return p.returncode, p.stdout, p.stderr
 
 
+def _killed(rc, out, err):
+    """a process that ended without Coq saying why (out-of-memory kill, shell timeout under load): not a verdict on
+    the development, so it is run again rather than reported"""
+    return rc != 0 and "Error" not in (out + err)
+
+
+def workers():
+    """parallel coqc/make jobs: bounded by the cores and by the memory that is free now (a coqc evaluating a case file
+    takes about 0.5-1 GB); several checks may be running side by side"""
+    n = min(16, os.cpu_count() or 4)
+    try:
+        with open("/proc/meminfo") as f:
+            avail = int(re.search(r"MemAvailable:\s+(\d+)", f.read()).group(1)) // (1024 * 1024)
+        n = max(2, min(n, avail // 2))
+    except Exception:
+        pass
+    return n
+
+
 def coq_eval(name, requires, terms, chunk=200, timeout=600):
     """terms: Gallina terms of type `list N`; evaluated with vm_compute, `chunk` per file, files in parallel."""
     from concurrent.futures import ThreadPoolExecutor
@@ -508,8 +532,13 @@ def coq_eval(name, requires, terms, chunk=200, timeout=600):
             f.write("Eval vm_compute in cases.\n")
         paths.append(path)
     results = []
-    with ThreadPoolExecutor(max_workers=min(16, os.cpu_count() or 4)) as ex:
+    with ThreadPoolExecutor(max_workers=workers()) as ex:
         outs = list(ex.map(_run_chunk, [(p, timeout) for p in paths]))
+    for attempt in range(2):        # killed without a Coq error: again, one at a time
+        for i, o in enumerate(outs):
+            if _killed(*o):
+                time.sleep(5 * (attempt + 1))
+                outs[i] = _run_chunk((paths[i], timeout))
     for (rc, out, err), path, ci in zip(outs, paths, range(0, len(terms), chunk)):
         n = len(terms[ci:ci + chunk])
         if rc != 0:
